@@ -361,8 +361,8 @@ Definition codes_of (c : case) : list N :=
 
 Definition agree (c : case) : bool := outcome_eqb (model_of c) (c_impl c).
 Definition prop_ok (c : case) : bool := match codes_of c with [] => true | _ => false end.
-(* the implementation's outcome fails the property in exactly one way: the final partial
-   chunk does not overlap its predecessor (F15) *)
+(* the implementation's outcome is the one the model predicts and fails the property in
+   exactly one way: the final partial chunk does not overlap its predecessor (F15) *)
 Definition only_f15 (c : case) : bool :=
-  match codes_of c with [7] => true | _ => false end.
+  agree c && match codes_of c with [7] => true | _ => false end.
 Definition show (c : case) := (model_of c, codes_of c).
